@@ -4,6 +4,7 @@ package engines
 // objects (C09).
 
 import (
+	"errors"
 	"context"
 	"fmt"
 	"strconv"
@@ -624,11 +625,39 @@ func e10Case(kind string, seed uint64, n int) Case {
 			if isClosed(early.ready) {
 				r.V("C09", "join-ready-before-bases", "join %s is ready although the destination controller's first list is still in flight", kind)
 			}
+			// a user waiting for the join's readiness reads it the moment Ready() fires
+			// (nothing changes on either server during this phase)
+			type atReady struct {
+				got kit.Snap
+				err error
+			}
+			arc := make(chan atReady, 1)
+			go func() {
+				select {
+				case <-early.ready:
+					got, err := early.list()
+					arc <- atReady{got, err}
+				case <-early.done:
+					arc <- atReady{nil, errors.New("join done before ready")}
+				}
+			}()
 			for _, rd := range g.basesReady {
 				waitCh(rd, virtBound)
 			}
 			core.Barrier()
 			r.Add("late-destination-joins", 1)
+			if isClosed(early.ready) {
+				select {
+				case ar := <-arc:
+					if want, e1 := g.expect(); e1 == nil && ar.err == nil {
+						r.Add("join-reads-at-readiness", 1)
+						if !ar.got.Equal(want) {
+							r.V("C09", "join-content-wrong", "join %s created before the destination was ready: the read made the moment its Ready() fired returned %v, the selection (servers quiet throughout) is %v: ready before synced", kind, ar.got, want)
+						}
+					}
+				default:
+				}
+			}
 			if !isClosed(early.ready) {
 				r.V("C09", "join-not-ready", "join %s created before the destination was ready (source ready, %d source objects) is still not ready at quiescence after both became ready", kind, len(g.srcSrv.Objects()))
 			} else if want, e1 := g.expect(); e1 == nil {
